@@ -176,6 +176,15 @@ theorem step_spec (c : C) (hc : Coherent c) (op : Op) (hp : isPublic op = true) 
   | sort => exact sortTrajstate_spec _ c c' us h
   | printState => exact printState_spec c hc c' us h
   | rawSwap t e => cases hp
+  | reissue t e =>
+    simp only [step] at h
+    split at h
+    · cases h
+    · rename_i c1 hl
+      injection h with h
+      injection h with h1 h2
+      subst h1; subst h2
+      exact ⟨coherent_of_none _ (lock_spec _ _ _ hl), by intro u hu; cases hu⟩
 
 theorem run_spec (ops : List Op) : ∀ (c : C), Coherent c → (∀ op ∈ ops, isPublic op = true) →
     ∀ (c' : C) (us : List Use), run c ops = .ok (c', us) → Coherent c' ∧ ∀ u ∈ us, GoodUse u := by
